@@ -47,7 +47,7 @@ def site_spans(text):
     """Independent line counter: for each `(E <k>` the 1-based first and last line of that form."""
     spans = {}
     dup = set()
-    for m in re.finditer(r"\(E (\d+)\b", text):
+    for m in re.finditer(r"\(E\s+(\d+)\b", text):
         start = m.start()
         depth = 0
         i = start
